@@ -988,6 +988,12 @@ impl BreadthFirstSearch {
             for rule_name in goal.candidate_rules.clone() {
                 path.push(rule_name.clone());
 
+                // Run the candidate inside an undo frame: a candidate that does not
+                // establish the goal must not leave its writes behind (they would change
+                // what later candidates see and what a failed query hands back)
+                facts.begin_undo_frame();
+                let mut proven = false;
+
                 // Get the rule from KB
                 if let Some(rule) = kb.get_rule(&rule_name) {
                     // ✅ FIX: Try to execute rule (checks conditions AND executes actions)
@@ -997,7 +1003,7 @@ impl BreadthFirstSearch {
                             // Now check if our goal is proven
                             if self.check_goal_in_facts(goal, facts) {
                                 goal.status = GoalStatus::Proven;
-                                break;
+                                proven = true;
                             }
                         }
                         Ok(false) => {
@@ -1008,6 +1014,12 @@ impl BreadthFirstSearch {
                         }
                     }
                 }
+
+                if proven {
+                    facts.commit_undo_frame(); // keep changes
+                    break;
+                }
+                facts.rollback_undo_frame();
             }
 
             // Add sub-goals to queue
